@@ -213,9 +213,12 @@ class AnchorCoverage:
             todo = [code]
             while todo:
                 c = todo.pop()
-                for _, _, ln in c.co_lines():
-                    if ln and any(a <= ln <= b for a, b in rs):
-                        self.executable.add((path, ln))
+                # only statements inside function bodies: module- and class-level lines (and the `def` line itself) run at
+                # import time, before any case, and say nothing about what the cases exercise
+                if c.co_flags & 0x1:
+                    for _, _, ln in c.co_lines():
+                        if ln and ln != c.co_firstlineno and any(a <= ln <= b for a, b in rs):
+                            self.executable.add((path, ln))
                 todo.extend(k for k in c.co_consts if hasattr(k, "co_lines"))
     def _local(self, frame, event, arg):
         if event == "line":
